@@ -142,6 +142,54 @@ def temp_rule(ctx):
 
 
 
+def share_rule(ctx):
+    repo = ctx.repo
+    # ---- the proposal's fitted data transform has one owner: the flow it was built for.  Handing that object to another component that calls fit()
+    #      on it (the flow-based preconditioning refits its transform at every SMC iteration) changes the proposal density q under the run, while the
+    #      stored log_q values and the (1 - beta) q term of the target were computed with the earlier fit.
+    import ast as _ast
+    from ..model import walk_no_nested as _wnn
+    escapes = []
+    n_reads = 0
+    for f_ in repo.all_functions():
+        if f_.ident.startswith("aspire.flows"):
+            continue
+        par_ = None
+        for n_ in _wnn(f_.node):
+            if isinstance(n_, _ast.Attribute) and n_.attr == "data_transform" and isinstance(n_.ctx, _ast.Load):
+                if par_ is None:
+                    par_ = {ch: p_ for p_ in _ast.walk(f_.node) for ch in _ast.iter_child_nodes(p_)}
+                n_reads += 1
+                pa = par_.get(n_)
+                if isinstance(pa, _ast.Attribute) and pa.value is n_:
+                    continue  # x.data_transform.<method / attribute>: used in place, not handed on
+                escapes.append((f_, n_))
+            if isinstance(n_, _ast.Call) and isinstance(n_.func, _ast.Name) and n_.func.id == "getattr" and len(n_.args) >= 2 and isinstance(n_.args[1], _ast.Constant) and n_.args[1].value == "data_transform":
+                n_reads += 1
+                escapes.append((f_, n_))
+    fpt = repo.modules["aspire.transforms"].classes.get("FlowPreconditioningTransform")
+    not_fresh = []
+    if fpt is not None and "__init__" in fpt.methods:
+        ini_ = fpt.methods["__init__"]
+        for n_ in _wnn(ini_.node):
+            if isinstance(n_, _ast.Assign) and any(isinstance(t_, _ast.Attribute) and t_.attr == "_data_transform" for t_ in n_.targets):
+                v_ = n_.value
+                if isinstance(v_, _ast.Name):
+                    defs_ = [d_ for d_ in _wnn(ini_.node) if isinstance(d_, _ast.Assign) and any(isinstance(t_, _ast.Name) and t_.id == v_.id for t_ in d_.targets)]
+                    fresh = bool(defs_) and all(isinstance(d_.value, _ast.Call) for d_ in defs_) and v_.id not in ini_.params
+                else:
+                    fresh = isinstance(v_, _ast.Call)
+                if not fresh:
+                    not_fresh.append((ini_, n_))
+    ctx.count("reads_of_a_flow_data_transform_outside_the_flow_classes", n_reads)
+    bad_ = escapes + not_fresh
+    ctx.decide(not bad_, "C05.share", "package", loc_of(bad_[0][0], bad_[0][1]) if bad_ else "src/aspire",
+               "the proposal flow's data transform object is not handed to any other component, and the preconditioning flow builds its own",
+               (f"{bad_[0][0].ident} takes the data transform object of a flow and hands it on (or the preconditioning flow accepts one from outside): the flow-based preconditioning "
+                "refits its transform at every iteration, so a shared object changes the proposal density q during the run -- the target (1-beta) q + beta (L + P) is then evaluated "
+                "with a q other than the one the population's log_q and weights came from") if bad_ else "", disc="shared-transform")
+
+
 def run(ctx):
     repo = ctx.repo
     smc = repo.cls(SMC)
@@ -228,50 +276,7 @@ def run(ctx):
     ctx.floor("kernel bindings in mutate", n_bind, 3)
 
     temp_rule(ctx)
-    # ---- the proposal's fitted data transform has one owner: the flow it was built for.  Handing that object to another component that calls fit()
-    #      on it (the flow-based preconditioning refits its transform at every SMC iteration) changes the proposal density q under the run, while the
-    #      stored log_q values and the (1 - beta) q term of the target were computed with the earlier fit.
-    import ast as _ast
-    from ..model import walk_no_nested as _wnn
-    escapes = []
-    n_reads = 0
-    for f_ in repo.all_functions():
-        if f_.ident.startswith("aspire.flows"):
-            continue
-        par_ = None
-        for n_ in _wnn(f_.node):
-            if isinstance(n_, _ast.Attribute) and n_.attr == "data_transform" and isinstance(n_.ctx, _ast.Load):
-                if par_ is None:
-                    par_ = {ch: p_ for p_ in _ast.walk(f_.node) for ch in _ast.iter_child_nodes(p_)}
-                n_reads += 1
-                pa = par_.get(n_)
-                if isinstance(pa, _ast.Attribute) and pa.value is n_:
-                    continue  # x.data_transform.<method / attribute>: used in place, not handed on
-                escapes.append((f_, n_))
-            if isinstance(n_, _ast.Call) and isinstance(n_.func, _ast.Name) and n_.func.id == "getattr" and len(n_.args) >= 2 and isinstance(n_.args[1], _ast.Constant) and n_.args[1].value == "data_transform":
-                n_reads += 1
-                escapes.append((f_, n_))
-    fpt = repo.modules["aspire.transforms"].classes.get("FlowPreconditioningTransform")
-    not_fresh = []
-    if fpt is not None and "__init__" in fpt.methods:
-        ini_ = fpt.methods["__init__"]
-        for n_ in _wnn(ini_.node):
-            if isinstance(n_, _ast.Assign) and any(isinstance(t_, _ast.Attribute) and t_.attr == "_data_transform" for t_ in n_.targets):
-                v_ = n_.value
-                if isinstance(v_, _ast.Name):
-                    defs_ = [d_ for d_ in _wnn(ini_.node) if isinstance(d_, _ast.Assign) and any(isinstance(t_, _ast.Name) and t_.id == v_.id for t_ in d_.targets)]
-                    fresh = bool(defs_) and all(isinstance(d_.value, _ast.Call) for d_ in defs_) and v_.id not in ini_.params
-                else:
-                    fresh = isinstance(v_, _ast.Call)
-                if not fresh:
-                    not_fresh.append((ini_, n_))
-    ctx.count("reads_of_a_flow_data_transform_outside_the_flow_classes", n_reads)
-    bad_ = escapes + not_fresh
-    ctx.decide(not bad_, "C05.share", "package", loc_of(bad_[0][0], bad_[0][1]) if bad_ else "src/aspire",
-               "the proposal flow's data transform object is not handed to any other component, and the preconditioning flow builds its own",
-               (f"{bad_[0][0].ident} takes the data transform object of a flow and hands it on (or the preconditioning flow accepts one from outside): the flow-based preconditioning "
-                "refits its transform at every iteration, so a shared object changes the proposal density q during the run -- the target (1-beta) q + beta (L + P) is then evaluated "
-                "with a q other than the one the population's log_q and weights came from") if bad_ else "", disc="shared-transform")
+    share_rule(ctx)
     # ---- evaluating the target leaves the kernel's point alone: neither the samplers' log_prob nor the preconditioning transform it
     #      calls writes into the array handed in (the kernel would continue from a point other than the one whose density it was given)
     from ..report import reuse as _reuse
